@@ -29,9 +29,51 @@ pub fn run<P: Property>(p: &P, tier: Tier, seed: u64, replay: Option<&str>) -> i
     if let Some(f) = replay {
         return engine::replay_file(p, Path::new(f));
     }
-    let out = engine::run_property(p, tier, seed);
+    let mut out = engine::run_property(p, tier, seed);
+    // thorough tier: a libFuzzer campaign with the same in-target oracle as secondary engine
+    let fuzz = match (tier, p.id()) {
+        (Tier::Thorough, "C01") => Some(("t_match", 15_000u64, 384u32)),
+        (Tier::Thorough, "C05") => Some(("t_total", 60_000, 256)),
+        (Tier::Thorough, "C06") => Some(("t_rules", 40_000, 384)),
+        (Tier::Thorough, "C17") => Some(("t_spans", 150_000, 128)),
+        (Tier::Thorough, "C18") => Some(("t_escape", 150_000, 128)),
+        _ => None,
+    };
+    let mut infra: Option<String> = None;
+    if let (Some((target, runs, max_len)), true) = (fuzz, out.violations.is_empty()) {
+        let f = engine::fuzz_stage(target, runs, seed, max_len);
+        out.stats.add(&format!("libfuzzer_{}_runs", target), f.runs);
+        out.stats.add(&format!("libfuzzer_{}_cov", target), f.cov);
+        out.stats.add(&format!("libfuzzer_{}_corpus", target), f.corpus);
+        out.stats.evaluations += f.runs;
+        for r in &f.replays {
+            // re-judge through the deterministic replay path before reporting
+            match engine::load_case::<P>(r) {
+                Ok(case) => {
+                    let mut st = engine::Stats::default();
+                    if let Err(m) = p.check(&case, &mut st) {
+                        out.violations.push((serde_json::to_value(&case).unwrap(), format!("[found by libFuzzer target {}] {}", target, m)));
+                    }
+                },
+                Err(e) => infra = Some(format!("cannot load fuzz replay {}: {}", r.display(), e)),
+            }
+        }
+        if !f.raw_crashes.is_empty() {
+            infra = Some(format!("libFuzzer target {} crashed without an oracle report; inputs kept: {:?}", target, f.raw_crashes));
+        }
+        if let Some(e) = f.infra_error {
+            infra = Some(e);
+        }
+    }
     let report = engine::build_report(p, tier, seed, out);
-    engine::finish(p.id(), report)
+    let code = engine::finish(p.id(), report);
+    if code == 0 {
+        if let Some(e) = infra {
+            eprintln!("INFRA: {}", e);
+            return 2;
+        }
+    }
+    code
 }
 
 /// Run a property in a child process as uid nobody when we are root (so that chmod 000 is a real
